@@ -258,6 +258,8 @@ func TestCheck(t *testing.T) {
 			"expected_aborts":        expectedAborts.Load(),
 			"socket_operations":      sockOps.Load(),
 			"overlapped_reads":       overlappedReads.Load(),
+			"commits_left_in_flight": commitsInFlight.Load(),
+			"stall_moves":            stallMoves.Load(),
 			"bubble_operations":      bubbleOps.Load(),
 			"bubble_ticks":           bubbleTicks.Load(),
 			"bubble_parked_ops":      bubbleBlocks.Load(),
